@@ -172,9 +172,11 @@ package datacodec
 
 //@ funcs ^convertTo(Int32Date|Int64Time|Int64Timestamp)$
 //@   prop C13
+//@   nilable location
 //@   ensures ints: forallT T in ints :: typeis(source, T) ==> ((err == nil && !wasNil && Z(val) == Z(unbox(source, T))) || (err != nil && !InRange(val, Z(unbox(source, T)))))
 //@   ensures ptrs: forallT T in ints :: typeis(source, *T) ==> ite(isnil(unbox(source, *T)), wasNil && err == nil, (err == nil && !wasNil && Z(val) == Z(old(*unbox(source, *T)))) || (err != nil && !InRange(val, Z(old(*unbox(source, *T))))))
 
 //@ funcs ^convertFrom(Int32Date|Int64Time|Int64Timestamp)$
 //@   prop C13
+//@   nilable location
 //@   ensures ints: forallT T in ints :: typeis(dest, *T) && !isnil(unbox(dest, *T)) ==> ite(wasNull, err == nil && Z(*unbox(dest, *T)) == 0, (err == nil && Z(*unbox(dest, *T)) == Z(val)) || (err != nil && !InRange(T, Z(val))))
